@@ -8,7 +8,9 @@ import io
 import itertools
 import os
 import random
+import socket
 import tempfile
+import time
 
 from vlib import bench, par, rfc_response
 from vlib.runner import Result, violation
@@ -286,6 +288,146 @@ def _task(t):
     return {"evals": evals, "viols": list(viols.values()), "outcomes": outcomes, "key": (wi, hi_shard)}
 
 
+# ---------------------------------------------------------------- real servers -------------
+# The in-process bench cannot see what depends on the socket's mode, on the keep-alive timer or on the real
+# transport (sendfile, socket buffers): a small grid of connection scripts on real servers, read back by the
+# same strict response reader.
+
+REAL_SCRIPTS = {
+    # name: (keepalive, [(path, version, connection header or None, pause before reading)], )
+    "ka-then-file": (2, [("/ok", "1.1", None, 0), ("/file/262144", "1.1", None, 0)]),
+    "ka-ka-then-file": (2, [("/ok", "1.1", None, 0), ("/ok", "1.1", None, 0), ("/file/70000", "1.1", None, 0)]),
+    "ka-then-big-slow-reader": (2, [("/ok", "1.1", None, 0), ("/big/6291456", "1.1", None, 0.4)]),
+    "file-then-big": (2, [("/file/262144", "1.1", None, 0.2), ("/big/3000000", "1.1", None, 0.2), ("/ok", "1.1", None, 0)]),
+    "slow-chunked-beyond-keepalive": (1, [("/slowstream/1.6", "1.1", None, 0), ("/ok", "1.1", None, 0)]),
+    "slow-length-beyond-keepalive": (1, [("/slowcl/1.6", "1.1", None, 0), ("/ok", "1.1", None, 0)]),
+    "http10-keepalive-undelimited": (2, [("/slowstream/0", "1.0", "keep-alive", 0), ("/ok", "1.1", None, 0)]),
+    "http10-keepalive-then-file": (2, [("/ok", "1.0", "keep-alive", 0), ("/file/70000", "1.0", "keep-alive", 0)]),
+}
+REAL_WORKERS = ("sync", "gthread", "gevent", "eventlet")
+
+
+def _expected_real_body(path):
+    if path.startswith("/file/"):
+        return b"F" * int(path[6:])
+    if path.startswith("/big/"):
+        return b"B" * int(path[5:])
+    if path.startswith("/slow"):
+        return b"first-part;second-part;"
+    return b"ok"
+
+
+def _read_until(c, wire, nresp, deadline):
+    """Read until nresp complete responses are on the wire, EOF, or the deadline."""
+    eof = False
+    while True:
+        resps, _p = rfc_response.read_all(wire, [b"GET"] * 8, eof)
+        if eof or sum(1 for r in resps if r.complete) >= nresp:
+            return wire, eof
+        left = deadline - time.time()
+        if left <= 0:
+            return wire, eof
+        c.settimeout(min(left, 2.0))
+        try:
+            d = c.recv(1 << 20)
+        except socket.timeout:
+            continue
+        except OSError:
+            return wire, True
+        if not d:
+            eof = True
+        wire += d
+
+
+def real_cell(cell):
+    from vlib import realproc
+    wc, script = cell
+    keepalive, reqs = REAL_SCRIPTS[script]
+    srv = realproc.Server(worker_class=wc, workers=1, bind="unix", keepalive=keepalive, threads=2 if wc == "gthread" else None,
+                          timeout=30, graceful_timeout=2)
+    try:
+        if not srv.start():
+            return ("infrastructure", "server did not start: " + srv.log_text()[-300:])
+        c = None
+        wire = b""
+        nresp = 0
+        may_continue = False
+        for i, (path, ver, conn, pause) in enumerate(reqs):
+            if c is None or not may_continue:
+                if c is not None:
+                    # the server said it would close: it must, and nothing may follow the last response
+                    wire, eof = _read_until(c, wire, nresp + 1, time.time() + 3.0)
+                    resps, probs = rfc_response.read_all(wire, [b"GET"] * 8, eof)
+                    if len(resps) > nresp or probs:
+                        return ("bytes-after-final-response", "request %d %s: after a response that ended the connection: %r %s" % (
+                            i - 1, reqs[i - 1][0], wire[-80:], probs))
+                    if not eof:
+                        return ("not-closed-after-announcing-close", "request %d %s: response announced the end of the connection "
+                                "but it is still open after 3 s" % (i - 1, reqs[i - 1][0]))
+                    c.close()
+                c = srv.connect(timeout=10.0)
+                wire = b""
+                nresp = 0
+            head = "GET %s HTTP/%s\r\nHost: h\r\n" % (path, ver)
+            if conn:
+                head += "Connection: %s\r\n" % conn
+            try:
+                c.sendall((head + "\r\n").encode())
+            except OSError as e:
+                return ("request-not-accepted", "request %d %s on a connection announced as persistent: %s" % (i, path, e))
+            if pause:
+                time.sleep(pause)
+            wire, eof = _read_until(c, wire, nresp + 1, time.time() + 12.0)
+            resps, probs = rfc_response.read_all(wire, [b"GET"] * 8, eof)
+            if len(resps) <= nresp:
+                return ("no-response", "request %d %s: no response (eof=%s, connection had %d earlier responses)" % (i, path, eof, nresp))
+            r = resps[nresp]
+            want = _expected_real_body(path)
+            if r.problems or not r.complete:
+                return ("response-incomplete", "request %d %s: %s framing=%s got %d of %d body bytes (eof=%s) tail=%r" % (
+                    i, path, r.problems or "incomplete", r.framing, len(r.body), len(want), eof, wire[-60:]))
+            if r.code != 200 or r.body != want:
+                return ("response-differs", "request %d %s: status %s, body %d bytes (%r...) expected %d" % (
+                    i, path, r.code, len(r.body), r.body[:40], len(want)))
+            if len(resps) > nresp + 1 or probs:
+                return ("unsolicited-bytes", "request %d %s: %s %r" % (i, path, probs, wire[r.end:r.end + 80]))
+            nresp += 1
+            toks = r.tokens(b"connection")
+            may_continue = (r.framing != "close" and b"close" not in toks and (r.minor == 1 and ver == "1.1" or b"keep-alive" in toks)
+                            and not eof)
+            if r.framing == "close" and not eof:
+                return ("close-delimited-but-open", "request %d %s" % (i, path))
+        return None
+    finally:
+        try:
+            if c is not None:
+                c.close()
+        except Exception:
+            pass
+        srv.cleanup()
+
+
+def real_part(thorough, seed):
+    cells = [(wc, sc) for wc in REAL_WORKERS for sc in REAL_SCRIPTS]
+    order = list(cells)
+    random.Random(seed).shuffle(order)
+    results = par.pmap(real_cell, order, jobs=12)
+    viols, unconfirmed, infra = [], [], 0
+    for cell, v in zip(order, results):
+        if v is None:
+            continue
+        v2 = real_cell(cell)
+        if v2 is None or v2[0] != v[0]:
+            unconfirmed.append({"cell": list(cell), "first": v[0]})
+            continue
+        if v[0] == "infrastructure":
+            infra += 1
+            continue
+        viols.append(violation("real:%s:%s" % (v[0], cell[0]), "worker=%s script=%s: %s" % (cell[0], cell[1], v[1]),
+                               {"part": "real", "cell": list(cell)}))
+    return {"cells": len(cells), "viols": viols, "unconfirmed": unconfirmed, "infrastructure_failures": infra}
+
+
 HEAD_SHARDS = 6
 
 
@@ -300,7 +442,9 @@ def run(ctx):
         for k, v in r["outcomes"].items():
             outcomes[k] = outcomes.get(k, 0) + v
     viols = [v for r in res for v in r["viols"]]
-    evals = sum(r["evals"] for r in res)
+    real = real_part(ctx.thorough, ctx.seed)
+    viols += real["viols"]
+    evals = sum(r["evals"] for r in res) + real["cells"]
     nprog = sum(1 for _ in programs(maxlen, b"GET"))
     cov = {
         "evaluations": evals,
@@ -315,14 +459,23 @@ def run(ctx):
         "request_heads": sum(1 for _ in heads()),
         "programs_per_GET_head": nprog,
         "outcome_classes": outcomes,
+        "real_cells": real["cells"], "real_scripts": sorted(REAL_SCRIPTS), "real_unconfirmed": real["unconfirmed"],
+        "real_infrastructure_failures": real["infrastructure_failures"],
     }
     return Result("exploration", cov, viols,
                   ["well-behaved application: no body bytes for HEAD/204/304, declared Content-Length <= produced bytes, latin-1 header strings",
                    "the client sends both pipelined requests and half-closes before the worker runs (deterministic, no threads)",
-                   "gevent/eventlet are represented by the shared AsyncWorker.handle code with a null timeout context"])
+                   "gevent/eventlet are represented in-process by the shared AsyncWorker.handle code with a null timeout context; "
+                   "the real-server scripts (sequences of requests on one connection, large/file/slow responses) run on real "
+                   "sync/gthread/gevent/eventlet servers; a real-process anomaly counts only if it reproduces on a serial re-run"])
 
 
 def replay(case):
+    if case.get("part") == "real":
+        v = real_cell(tuple(case["cell"]))
+        if v and v[0] != "infrastructure":
+            return violation("real:%s:%s" % (v[0], case["cell"][0]), v[1], case)
+        return None
     wi = case["worker"]
     kind, kw = WORKER_CFGS[wi]
     key = tuple(k.encode() if k is not None else None for k in case["head"])
